@@ -1,5 +1,5 @@
 \* C03 quick: object-level layer (mutable Version objects): closed state space of two objects over
-\* epoch absent/0, revision absent/0, upstream <= 2 characters over 0 1 ~ (48 versions, 2304 states),
+\* epoch absent/0, revision absent/0, upstream <= 2 characters over 0 1 (24 versions, 576 states),
 \* every assignment of full_version / epoch / upstream_version / debian_revision to object 1
 CONSTANTS
   HashOnString = FALSE
@@ -7,7 +7,7 @@ CONSTANTS
   StaleKey = FALSE
   Epochs <- E_two
   Revs <- R_two
-  UpChars = {48, 49, 126}
+  UpChars = {48, 49}
   MaxUp = 2
   Seps = FALSE
   Triples = FALSE
